@@ -22,7 +22,8 @@ THEOREMS = ["C07.c07_prim", "C06.c06_pump_total", "C08.c08_skip_exceeded", "C08.
             "C08.c08_value_warning_follows_its_field", "C08.c08_offending_field_is_warned",
             # warn mode = the lenient field-by-field interpretation + the value warnings (Lenient.lean, Props/C08L.lean)
             "Sim.bind", "readPrim_sim", "decode_sim", "decodeCommand_sim", "decodeResponse_sim", "decodeStream_sim", "runWalker_sim",
-            "C08.c08_lenient", "C08.c08_lenient_object", "C08.c08_lenient_events", "C08.c08_lenient_only_value_warnings"]
+            "C08.c08_lenient", "C08.c08_lenient_object", "C08.c08_lenient_events", "C08.c08_lenient_only_value_warnings",
+            "C08.relaxed_tables_wf", "C08.c08_lenient_command_iff", "C08.c08_lenient_response_iff"]
 
 
 def allowed_escape(block):
